@@ -610,13 +610,17 @@ for (N, C) in [(32, 8), (64, 16)]:
       bound="arbitrary RLE block (2 free symbols) on every valid normalized block hash of <= 8 symbols: accepted => canonical",
       enc=["is_valid_rle_block_for_block_hash::<%d,%d>" % (N, C), "expand_block_hash_using_rle", "compress_block_hash_with_rle"],
       assumptions=[ASSUME_SYM])
+K("c07_object_build_short_m4", "C07", M_DUAL, cfg="release", tiers=("quick",), cap=(900, 0), cost=400, mem=14,
+  unwindset=dual_rules(n_in=5, n_rle=17) + alg_rules(n_norm=5, n_verify=6), shape="BMC",
+  bound="re-initialising a dirty dual object gives the same valid object as a fresh build; short type, raw block hashes <= 4 symbols",
+  enc=["FuzzyHashDualData::from_raw_form", "init_from_raw_form", "is_valid"], assumptions=[ASSUME_SYM])
 for (kind, what) in [("build", "every constructor route incl. re-initialising a dirty object builds the same valid dual hash"),
                      ("lossless", "to_raw_form / into_mut_raw_form give back the raw hash; normalized part == normalize()"),
                      ("cleared", "normalize_in_place == dual of the normalized hash")]:
-    for (S, m, tiers, cap, cost) in [("short", 5, ("quick",), (900, 0), 400), ("short", 8, ("thorough",), (0, 3000), 900),
-                                     ("long", 8, ("thorough",), (0, 3000), 900)]:
+    for (S, m, tiers, cap, cost) in [("short", 5, ("thorough",), (0, 3000), 900), ("short", 8, ("thorough",), (0, 3600), 1500),
+                                     ("long", 8, ("thorough",), (0, 3600), 1500)]:
         K("c07_object_%s_%s_m%d" % (kind, S, m), "C07", M_DUAL, cfg="release", tiers=tiers, cap=cap, cost=cost, mem=14,
-          unwindset=dual_rules(n_in=m + 1, n_rle=17) + alg_rules(n_norm=m + 1), shape="BMC",
+          unwindset=dual_rules(n_in=m + 1, n_rle=17) + alg_rules(n_norm=m + 1, n_verify=m + 2), shape="BMC",
           bound="%s; %s dual type, raw block hashes <= %d symbols" % (what, S, m),
           outside="object-level wrappers with longer block hashes (they forward to the kernels)",
           enc=["FuzzyHashDualData::from_raw_form", "From<raw>", "init_from_raw_form", "new_from_internals(_near_raw)",
@@ -1069,9 +1073,9 @@ K("c02_reused_target_init_m6", "C02", M_CMP, fn="c17_target_init_short_m6", cfg=
   enc=["FuzzyHashCompareTarget::init_from", "From<&FuzzyHashData>"], assumptions=[ASSUME_SYM])
 
 # aliases: queries that decide the part of another property naming the same behaviour
-K("c11_dual_reused_destination_m5", "C11", M_DUAL, fn="c07_object_build_short_m5", cfg="release", cap=(900, 2400), cost=400, mem=14,
-  unwindset=dual_rules(n_in=6, n_rle=17), shape="inductive step",
-  bound="init_from_raw_form into an ARBITRARY (previously used) dual object gives the same valid object as a fresh build; <= 5 symbols",
+K("c11_dual_reused_destination_m4", "C11", M_DUAL, fn="c07_object_build_short_m4", cfg="release", cap=(900, 2400), cost=400, mem=14,
+  unwindset=dual_rules(n_in=5, n_rle=17) + alg_rules(n_norm=5, n_verify=6), shape="inductive step",
+  bound="init_from_raw_form into an ARBITRARY (previously used) dual object gives the same valid object as a fresh build; <= 4 symbols",
   enc=["FuzzyHashDualData::init_from_raw_form", "compress_block_hash_with_rle", "is_valid"], assumptions=[ASSUME_SYM])
 K("c13_fork_limit_for_every_hint", "C13", M_GEN, fn="c12_set_fixed_input_size", cfg="release", cap=(600, 1500), cost=300,
   shape="inductive step", bound="set_fixed_input_size(n) for every n: fork limit == min(30, level(n)+1), never above the largest block size",
